@@ -30,7 +30,9 @@ def main():
         r0 = sh(f"git -C /repo worktree add --detach {repo} HEAD")
         assert r0.returncode == 0, r0.stderr
     assert sh(f"git -C {repo} status --porcelain").stdout.strip() == "", "repo not clean"
-    env = dict(os.environ, PYTHONPATH=f"{repo}/src", JAX_PLATFORMS="cpu", MDPAX_REPO=repo)
+    scratch = f"/tmp/seedtest_{sid}_{os.getpid()}"
+    env = dict(os.environ, PYTHONPATH=f"{repo}/src", JAX_PLATFORMS="cpu", MDPAX_REPO=repo,
+               VERIF_EVIDENCE_DIR=f"{scratch}/evidence", VERIF_REPLAY_DIR=f"{scratch}/replays")
     env.pop("MDPAX_VERIF", None)
     meta = {"id": sid, "breaks": props[0], "checks_run": {}, "at": time.strftime("%Y-%m-%d %H:%M:%S")}
     r = sh(f"git -C {repo} apply {out / 'patch.diff'}")
@@ -63,6 +65,7 @@ def main():
     (out / "meta.json").write_text(json.dumps(meta, indent=1))
     if repo != "/repo":
         sh(f"git -C /repo worktree remove --force {repo}")
+    shutil.rmtree(scratch, ignore_errors=True)
     print(json.dumps({k: meta[k] for k in ("id", "confirmed", "caught_by")}), {p: r["lines"][-1:] for p, r in meta["checks_run"].items()})
 
 
